@@ -103,7 +103,7 @@ LATTICE = {
         contexts=[{}, {"alpha": "auto"}]),
     "binary": dict(
         options=dict(use_01=[True], alpha=["auto", "auto_po2", 2.0],
-                     use_stochastic_rounding=[True], scale_axis=[0, 1],
+                     use_stochastic_rounding=[True], scale_axis=[0, 1, [0, 1]],
                      elements_per_scale=[2, 3], min_po2_exponent=[1, -1],
                      max_po2_exponent=[-2, 0]),
         contexts=[{}, {"alpha": "auto"}, {"alpha": "auto_po2"},
